@@ -28,19 +28,30 @@ class FileManager:
 
         zlines = zpage.read_text().split("\n")
         in_note = False
-        start_idx = len(zlines) - 1
+        start_idx: Optional[int] = None
         for i, line in enumerate(zlines):
             if line.startswith(("- ", "o ", "~ ", "x ", "< ", "> ")):
                 in_note = True
             if in_note and line.strip() == "":
                 in_note = False
                 start_idx = i
-        end_idx = start_idx + 1
-        new_zlines = (
-            zlines[:start_idx]
-            + note.to_string().split("\n")
-            + zlines[end_idx:]
-        )
+        if start_idx is None:
+            # No note is followed by an empty line, so we add this note to
+            # the very end of the page (WITHOUT replacing its last line).
+            if zlines[-1] == "":
+                zlines.pop()
+            # A page's header MUST be separated from its first note by an
+            # empty line.
+            if all(line == "#" or line.startswith("# ") for line in zlines):
+                zlines.append("")
+            new_zlines = zlines + note.to_string().split("\n")
+        else:
+            end_idx = start_idx + 1
+            new_zlines = (
+                zlines[:start_idx]
+                + note.to_string().split("\n")
+                + zlines[end_idx:]
+            )
         new_zcontents = "\n".join(new_zlines)
         zpage.write_text(new_zcontents)
         return None
